@@ -112,4 +112,12 @@ Section Sizing.
     constructor. apply rel_ss_set; [exact Hs| |exact Hoadj|exact Hit3].
     destruct (is_stretch_content al); [apply (stretch_auto_tracks_homog k Hk); assumption|exact H3].
   Qed.
+  (* ---- the container size *)
+  Lemma rel_container_size P P' i i' cs cs' rs rs' :
+    pre_rel k P P' -> fin_rel k i i' -> L cs cs' -> L rs rs' ->
+    pair_rel (sz_rel L) (sz_rel L) (container_size P i cs rs) (container_size P' i' cs' rs').
+  Proof.
+    intros (Hpad & Hbor & Hpb & Hmin & Hmax & Hpref & Hgut & Hinset & Hga & Hout & Hinn) (_ & _ & _ & Hkn & _) Hcs Hrs.
+    unfold container_size, pair_rel. cbn [fst snd]. unfold_lifts. hm k Hk.
+  Qed.
 End Sizing.
